@@ -30,9 +30,17 @@ def parseAcc (s : String) : Option AccSpec :=
     pure { id := i, svcs := svcs }
   | _ => none
 
+/-- `+k` AddAccessory(pool[k]) | `-k` RemoveAccessory(pool[k]) | `*k:<svc>` pool[k].AddService(<svc>) -/
 def parseOp (s : String) : Option Op :=
   if s.startsWith "+" then (s.drop 1).toString.toNat?.map Op.add
   else if s.startsWith "-" then (s.drop 1).toString.toNat?.map Op.remove
+  else if s.startsWith "*" then
+    match (s.drop 1).toString.splitOn ":" with
+    | [k, sv] => do
+      let k ← k.toNat?
+      let sv ← parseSvc sv
+      pure (Op.addSvc k sv)
+    | _ => none
   else none
 
 def showNats (sep : String) (l : List Nat) : String := sep.intercalate (l.map toString)
